@@ -196,7 +196,9 @@ def r16_2(ctx: Ctx):
     ctx.ob("R16.2", sstr, hdr[0] if hdr else "section header", bool(hdr) and "section_name" in norm(sstr.node),
            "the section header is re-emitted with the section's name", node=hdr[0] if hdr else sstr.node)
     # write: loop over all items; every path of the body writes
-    loops = [n for n in walk_no_nested(wr.node) if isinstance(n, ast.For) and "self" in norm(n.iter)]
+    loops = [n for n in walk_no_nested(wr.node) if isinstance(n, ast.For) and norm(n.iter) in ("self.items()", "self", "self.keys()", "self.values()")]
+    if not loops:
+        loops = [n for n in walk_no_nested(wr.node) if isinstance(n, ast.For) and "self" in norm(n.iter)][:1]
     okw = False
     detail = ""
     if loops:
